@@ -19,6 +19,8 @@ std::string groupNameOf(long long g) {
     if (g == 1) return "ANALOG";
     if (g == 2) return "FORCE_PLATFORM";
     if (g >= 700000 && g < 800000) return lowerOf(groupNameOf(g - 700000));     // same name in another letter case (a different name for every look-up)
+    if (g >= 600000 && g < 700000) return groupNameOf(g - 600000) + (g % 2 ? " " : "  ");     // same name with trailing blanks (group names are kept as given)
+    if (g >= 900000 && g < 1000000) { std::string b = groupNameOf(g - 900000); return b.substr(0, b.size() > 3 ? b.size() - 1 - static_cast<size_t>(g % 2) : b.size()); }   // a proper prefix of another group's name
     return poolName(1000 + g, 20);
 }
 std::string paramNameOf(long long n) {
